@@ -1,25 +1,30 @@
 /-
-C13 — the BIP-38 EC-multiplied round trip without curve hypotheses: `CompressCanon` and `GroupLaw`
-of `Props/C13.lean` are theorems (`Lemmas/Bip38Group.lean`), because the executable secp256k1
-arithmetic is Mathlib's elliptic-curve group law (`Props/C12Group.lean`) and `n` is prime.
+C13 — the BIP-38 round trips without hypotheses.  The three named hypotheses of `Props/C13.lean`
+are theorems:
+* `CompressCanon`, `GroupLaw` (`Lemmas/Bip38Group.lean`): the executable secp256k1 arithmetic is
+  Mathlib's elliptic-curve group law (`Props/C12Group.lean`) and `n` is prime;
+* `AesInv` (`Lemmas/AesInv.lean`): the inverse cipher of `Prim/Aes.lean` inverts the cipher (S-box
+  tables and GF(2^8) coefficients checked by the kernel, the rest structural).
+`scrypt` and `sha256d` stay uninterpreted: the round trips hold whatever they compute.
 -/
 import BipVerif.Lemmas.Bip38Group
+import BipVerif.Lemmas.AesInv
 
 namespace BipVerif.Props.C13Group
-open BipVerif BipVerif.Prim BipVerif.Model BipVerif.Model.Bip38Lemmas BipVerif.Props.C13
+open BipVerif BipVerif.Prim BipVerif.Model BipVerif.Model.Bip38Lemmas
 
 /-- a compressed point produced by `secpMulG` re-validates to itself -/
-theorem compressCanon : CompressCanon := Bip38Group.compressCanon
+theorem compressCanon : C13.CompressCanon := Bip38Group.compressCanon
 
 /-- `b·(a·G) = (a·b mod n)·G` through the point adapters, refusals of infinity included -/
-theorem groupLaw : GroupLaw := Bip38Group.groupLaw
+theorem groupLaw : C13.GroupLaw := Bip38Group.groupLaw
+
+/-- AES-256 single-block decryption inverts encryption (the key length is not even needed) -/
+theorem aesInv : C13.AesInv := fun k b _ hb => BipVerif.AesInv.aes256_decrypt_encrypt k b hb
 
 /-- **decrypt ∘ generate** (same passphrase), with the AES inverse property as the only
-hypothesis: the owner generates an intermediate code from `pass` (salt and optional lot/sequence),
-anybody generates an encrypted key from it with the random `seedb`; decrypting with `pass`
-returns the private key `passfactor · factorb mod n` (32 bytes big-endian) and the compression
-mode. -/
-theorem ec_decrypt_generated_of_aes (hAes : AesInv)
+hypothesis -/
+theorem ec_decrypt_generated_of_aes (hAes : C13.AesInv)
     {pass salt seedb : Bytes} {ls : Option (Nat × Nat)} {ip enc : List Char} {c : Bool}
     (hI : bip38Intermediate pass salt ls = .ok ip)
     (hoe : (ownerEntropy salt ls).length = 8)
@@ -28,5 +33,25 @@ theorem ec_decrypt_generated_of_aes (hAes : AesInv)
       (Bytes.ofNatBE 32 (Bytes.toNatBE (bip38PassFactor pass (ownerEntropy salt ls) ls.isSome)
         * Bytes.toNatBE (sha256d seedb) % Prim.secp256k1.n), c) :=
   C13.ec_decrypt_generated hAes compressCanon groupLaw hI hoe hG hseed
+
+/-- **decrypt ∘ generate** (same passphrase), no hypothesis left: the owner generates an
+intermediate code from `pass` (salt and optional lot/sequence), anybody generates an encrypted key
+from it with the random `seedb`; decrypting with `pass` returns the private key
+`passfactor · factorb mod n` (32 bytes big-endian) and the compression mode. -/
+theorem ec_decrypt_generated
+    {pass salt seedb : Bytes} {ls : Option (Nat × Nat)} {ip enc : List Char} {c : Bool}
+    (hI : bip38Intermediate pass salt ls = .ok ip)
+    (hoe : (ownerEntropy salt ls).length = 8)
+    (hG : bip38EcGenerate ip seedb c = .ok enc) (hseed : seedb.length = 24) :
+    bip38EcDecrypt enc pass = .ok
+      (Bytes.ofNatBE 32 (Bytes.toNatBE (bip38PassFactor pass (ownerEntropy salt ls) ls.isSome)
+        * Bytes.toNatBE (sha256d seedb) % Prim.secp256k1.n), c) :=
+  C13.ec_decrypt_generated aesInv compressCanon groupLaw hI hoe hG hseed
+
+/-- **decrypt ∘ encrypt** (no-EC mode, same passphrase) returns the key and the compression mode;
+no hypothesis left -/
+theorem noec_decrypt_encrypt {priv pass : Bytes} {c : Bool} {s : List Char}
+    (h : bip38NoEcEncrypt priv pass c = .ok s) : bip38NoEcDecrypt s pass = .ok (priv, c) :=
+  C13.noec_decrypt_encrypt aesInv h
 
 end BipVerif.Props.C13Group
